@@ -5,7 +5,7 @@
    tables translated from bigtools/src/bed/autosql.rs into Generated/Consts.v. *)
 From Coq Require Import String.
 From BT Require Import Base.Util Generated.Consts Model.AutoSql Proofs.AutoSqlLex Proofs.AutoSqlTotal
-  Proofs.AutoSqlGen Proofs.AutoSqlParseGen Proofs.AutoSqlStore.
+  Proofs.AutoSqlGen Proofs.AutoSqlParseGen Proofs.AutoSqlStore Proofs.AutoSqlFuel Proofs.AutoSqlD9.
 Local Open Scope nat_scope.
 
 (* ------------------------------------------------------------------ the parser is total *)
@@ -25,6 +25,21 @@ Theorem C19_parser_output_bounded : forall (s : list N) (fuel : nat) ds, parse_f
   length ds <= N.to_nat AUTOSQL_DECL_CAP + 1 /\ decls_weight ds <= length s.
 Proof. exact parser_output_bounded. Qed.
 Print Assumptions C19_parser_output_bounded.
+
+(* The outcome does not depend on the budget once it is sufficient: [parse s] is THE answer, and
+   "out of fuel" can only mean a loop that does not end. *)
+Theorem C19_parser_fuel_independent : forall s f1 f2, parse_fuel s <= f1 -> parse_fuel s <= f2 ->
+  parse_autosql f1 s = parse_autosql f2 s.
+Proof. exact parser_fuel_independent. Qed.
+Print Assumptions C19_parser_fuel_independent.
+
+(* D9, for the record (repaired in /repo commit 034426d; the model above follows the repaired
+   code): the value loop of enum( / set( WITHOUT the empty-value exit never returns on the text
+   after `enum(` in  table t "c" ( enum(a, b , whatever the budget. *)
+Theorem C19_enum_loop_unrepaired_diverges : forall lf fuel, 4 < fuel ->
+  values_loop_unrepaired lf fuel (mkP (bs "a, b") 0) [] = Fuel.
+Proof. exact unrepaired_loop_witness. Qed.
+Print Assumptions C19_enum_loop_unrepaired_diverges.
 
 (* Non-vacuity: a two-declaration schema with an enum, a set, a sized array and an index parses;
    the D9 witness (unterminated value list) is an error, not a hang. *)
